@@ -1,4 +1,441 @@
-import FV.Model.Legal
+import FV.Proofs.Legal
+/-
+  C09 — Legaliser constraint system admits exactly the legal floorplans.
+
+  Model: `FV/Model/Legal.lean` (`netlist_to_utils`, the equation generator of `Model(...)`, `evaluate()`,
+  `is_equation_met`), as repaired by fixes/C09_branch_offsets.diff.  All statements are over `ℝ`, with the
+  global slack `ε = 0` and the tolerance of `is_equation_met` set to `0` (`Holds`), for configurations with
+  positive rectangle sizes (`Pos`; GEKKO's variable bounds `lb = 0.1` on `w`, `h`) and a ratio limit `≥ 1`.
+
+  `Legal τ` is the legality of a configuration spelled out geometrically; the no-overlap clause between
+  different modules allows an overlap *area* of at most `τ`.  The equations are satisfied by every
+  `Legal 0` configuration (`system_complete`) and only by `Legal τ` configurations with
+  `τ = 0.01 · min(die_width, die_height) / #modules`, the smoothing constant of the code (`system_sound`).
+-/
 namespace FV.C09
-theorem placeholder : True := trivial
+open FV FV.Legal
+set_option linter.unusedVariables false
+
+/-! ### legality, geometrically -/
+
+noncomputable def xmin (q : Box ℝ) : ℝ := q.x - q.w / 2
+noncomputable def xmax (q : Box ℝ) : ℝ := q.x + q.w / 2
+noncomputable def ymin (q : Box ℝ) : ℝ := q.y - q.h / 2
+noncomputable def ymax (q : Box ℝ) : ℝ := q.y + q.h / 2
+
+/-- inside the die `[0, dw] × [0, dh]`. -/
+def InDie (P : Params ℝ) (q : Box ℝ) : Prop := 0 ≤ xmin q ∧ 0 ≤ ymin q ∧ xmax q ≤ P.dw ∧ ymax q ≤ P.dh
+
+/-- within the aspect-ratio limit. -/
+def AspectOK (r : ℝ) (q : Box ℝ) : Prop := max (q.w / q.h) (q.h / q.w) ≤ r
+
+/-- branch `b` sits on side `s` of the trunk `t`, within the trunk's extent. -/
+def Attached : Loc → Box ℝ → Box ℝ → Prop
+  | .north, t, b => ymin b = ymax t ∧ xmin t ≤ xmin b ∧ xmax b ≤ xmax t
+  | .south, t, b => ymax b = ymin t ∧ xmin t ≤ xmin b ∧ xmax b ≤ xmax t
+  | .east, t, b => xmin b = xmax t ∧ ymin t ≤ ymin b ∧ ymax b ≤ ymax t
+  | .west, t, b => xmax b = xmin t ∧ ymin t ≤ ymin b ∧ ymax b ≤ ymax t
+  | _, _, _ => True
+
+/-- the rectangles of side `s`, taken in the (stable) order of their original coordinate, lie one after the
+    other along the side: every earlier one ends before every later one begins. -/
+def SideOrdered (c : Cfg) (m : Nat) (b : ModIn ℝ) (s : Loc) (key : Box ℝ → ℝ) (lo hi : Box ℝ → ℝ) : Prop :=
+  (sortBy (fun p => key p.2) (b.side s)).Pairwise fun p q => hi (c m p.1) ≤ lo (c m q.1)
+
+def SidesOrdered (c : Cfg) (m : Nat) (b : ModIn ℝ) : Prop :=
+  SideOrdered c m b .north (·.x) xmin xmax ∧ SideOrdered c m b .south (·.x) xmin xmax ∧
+  SideOrdered c m b .east (·.y) ymin ymax ∧ SideOrdered c m b .west (·.y) ymin ymax
+
+/-- area of the intersection of two boxes. -/
+noncomputable def ovArea (p q : Box ℝ) : ℝ :=
+  max 0 (min (xmax p) (xmax q) - max (xmin p) (xmin q)) * max 0 (min (ymax p) (ymax q) - max (ymin p) (ymin q))
+
+/-- module `m` is a translate of its original shape: same sizes, same offsets from the trunk. -/
+def Rigid (c : Cfg) (m : Nat) (b : ModIn ℝ) : Prop :=
+  ((c m 0).w = b.trunk.w ∧ (c m 0).h = b.trunk.h) ∧
+  ∀ i q, 1 ≤ i → b.branches[i - 1]? = some q →
+    (c m i).w = q.w ∧ (c m i).h = q.h ∧
+    (c m i).x - (c m 0).x = q.x - b.trunk.x ∧ (c m i).y - (c m 0).y = q.y - b.trunk.y
+
+/-- the trunk is at its original place. -/
+def AtPlace (c : Cfg) (m : Nat) (b : ModIn ℝ) : Prop := (c m 0).x = b.trunk.x ∧ (c m 0).y = b.trunk.y
+
+/-- the clauses that concern one module. -/
+structure LegalModule (P : Params ℝ) (c : Cfg) (m : Nat) (M : InModule ℝ) : Prop where
+  inDie : ∀ i < (split M.rects).c, InDie P (c m i)
+  aspect : ∀ i < (split M.rects).c, AspectOK P.r (c m i)
+  area : M.area ≤ areaSum c m (split M.rects).c
+  attached : ∀ i s q, (i, s, q) ∈ (split M.rects).sided → Attached s (c m 0) (c m i)
+  ordered : SidesOrdered c m (split M.rects)
+
+/-- a legal floorplan, with overlap between different modules allowed up to area `τ`. -/
+structure Legal (τ : ℝ) (P : Params ℝ) (mods : List (InModule ℝ)) (c : Cfg) : Prop where
+  modules : ∀ m M, mods[m]? = some M → LegalModule P c m M
+  hard : ∀ m M, mods[m]? = some M → M.hard = true → Rigid c m (split M.rects)
+  fixed : ∀ m M, mods[m]? = some M → M.fixed = true → AtPlace c m (split M.rects)
+  noOverlap : ∀ m n Mm Mn, m < n → mods[m]? = some Mm → mods[n]? = some Mn →
+    ∀ i < (split Mm.rects).c, ∀ j < (split Mn.rects).c, ovArea (c m i) (c n j) ≤ τ
+
+/-- every equation the legaliser generates holds (slack 0). -/
+def AllEquationsHold (P : Params ℝ) (mods : List (InModule ℝ)) (c : Cfg) : Prop :=
+  ∃ U es, netlistToUtils mods = .ok U ∧ gen P U = .ok es ∧ ∀ e ∈ es, Holds c e
+
+/-! ### roles → lists -/
+
+/-- `netlist_to_utils` sorts the rectangles of a module (each labelled trunk / north / south / east / west)
+    into the four branch lists by label, keeping their order. -/
+theorem roles_to_lists (rs : List (InRect ℝ)) (h : ∀ r ∈ rs, r.loc ≠ .nopoly) :
+    (split rs).N = (rs.filter (fun r => r.loc == .north)).map (·.box) ∧
+    (split rs).S = (rs.filter (fun r => r.loc == .south)).map (·.box) ∧
+    (split rs).E = (rs.filter (fun r => r.loc == .east)).map (·.box) ∧
+    (split rs).W = (rs.filter (fun r => r.loc == .west)).map (·.box) := by
+  have := foldl_placeRect_lists rs ({ trunk := ⟨zero, zero, zero, zero⟩ }, false) h
+  simpa [split] using this
+
+/-! ### the individual kinds of equation -/
+
+/-- `thin(w, h) ≥ thin(r, 1)` is the aspect-ratio limit. -/
+theorem ratio_iff (w h r : ℝ) (hw : 0 < w) (hh : 0 < h) (hr : 1 ≤ r) :
+    thinV r 1 * 10 ≤ thinV w h * 10 ↔ max (w / h) (h / w) ≤ r := by
+  rw [thin_ge_iff w h r hw hh hr, max_le_iff, div_le_iff₀ hh, div_le_iff₀ hw]
+
+/-- the smooth maximum `½ (x + y + √((x-y)² + 4τ²))` is non-negative iff one of the two arguments is,
+    up to `τ²` on the product of two negative ones. -/
+theorem smax_nonneg_iff (x y t : ℝ) :
+    0 ≤ 1 / 2 * (x + y + √((x - y) ^ 2 + 4 * t * t)) ↔ (0 ≤ x ∨ 0 ≤ y ∨ x * y ≤ t ^ 2) := by
+  rw [smax_nonneg_iff_real]
+  constructor
+  · rintro (h | h)
+    · by_cases hx : 0 ≤ x
+      · exact Or.inl hx
+      · exact Or.inr (Or.inl (by linarith))
+    · exact Or.inr (Or.inr h)
+  · rintro (h | h | h)
+    · by_cases hy : 0 ≤ y
+      · exact Or.inl (by linarith)
+      · exact Or.inr (by nlinarith [sq_nonneg t])
+    · by_cases hx : 0 ≤ x
+      · exact Or.inl (by linarith)
+      · exact Or.inr (by nlinarith [sq_nonneg t])
+    · exact Or.inr h
+
+/-- Bounds + Shapes of a rectangle: inside the die and within the ratio limit. -/
+theorem bounds_iff (P : Params ℝ) (c : Cfg) (m i : Nat) (hw : 0 < (c m i).w) (hh : 0 < (c m i).h) (hr : 1 ≤ P.r) :
+    (∀ e ∈ rectEqs P m i, Holds c e) ↔ InDie P (c m i) ∧ AspectOK P.r (c m i) := by
+  rw [rectEqs_iff P c m i hw hh hr]
+  unfold InDie AspectOK xmin xmax ymin ymax
+  rw [max_le_iff, div_le_iff₀ hh, div_le_iff₀ hw]
+  constructor
+  · rintro ⟨⟨a, b, c', d⟩, e⟩; exact ⟨⟨by linarith, by linarith, by linarith, by linarith⟩, e⟩
+  · rintro ⟨⟨a, b, c', d⟩, e⟩; exact ⟨⟨by linarith, by linarith, by linarith, by linarith⟩, e⟩
+
+theorem attachRaw_iff (s : Loc) (t b : Box ℝ) : AttachRaw s t b ↔ Attached s t b := by
+  cases s <;> unfold AttachRaw Attached xmin xmax ymin ymax <;>
+    first
+    | exact Iff.rfl
+    | (constructor <;> rintro ⟨h1, h2, h3⟩ <;> exact ⟨by linarith, by linarith, by linarith⟩)
+
+/-- the Attach equations of a branch: it touches its side of the trunk, within the trunk's extent. -/
+theorem attach_iff (c : Cfg) (s : Loc) (m i : Nat) :
+    (∀ e ∈ attachEqs s m i, Holds c e) ↔ Attached s (c m 0) (c m i) := by
+  rw [attachEqs_iff, attachRaw_iff]
+
+
+/-- the Intra equations of one side (`x`-sides): in the stable order of their original coordinate the
+    rectangles lie one after the other — all pairs, not only neighbours. -/
+theorem intra_iff_x (c : Cfg) (m : Nat) (b : ModIn ℝ) (s : Loc) (nm : String)
+    (hpos : ∀ i < b.c, 0 < (c m i).w ∧ 0 < (c m i).h) :
+    (∀ e ∈ intraSide m b s .x .w (·.x) nm, Holds c e) ↔ SideOrdered c m b s (·.x) xmin xmax := by
+  rw [intraSide_iff]
+  unfold SideOrdered
+  refine Iff.trans ?_ (pairs_iff_pairwise (fun p : Nat × Box ℝ => xmin (c m p.1)) (fun p : Nat × Box ℝ => xmax (c m p.1)) _ ?_)
+  · unfold xmin xmax coord
+    constructor <;> intro h p hp <;> have := h p hp <;> simp only at this ⊢ <;> linarith
+  · intro x hx
+    rw [mem_sortBy] at hx
+    have := (hpos x.1 (sided_range b x.1 s x.2 (mem_side b s x.1 x.2 hx)).2.1).1
+    show xmin (c m x.1) ≤ xmax (c m x.1)
+    unfold xmin xmax; linarith
+
+/-- the same for the `y`-sides (east, west). -/
+theorem intra_iff_y (c : Cfg) (m : Nat) (b : ModIn ℝ) (s : Loc) (nm : String)
+    (hpos : ∀ i < b.c, 0 < (c m i).w ∧ 0 < (c m i).h) :
+    (∀ e ∈ intraSide m b s .y .h (·.y) nm, Holds c e) ↔ SideOrdered c m b s (·.y) ymin ymax := by
+  rw [intraSide_iff]
+  unfold SideOrdered
+  refine Iff.trans ?_ (pairs_iff_pairwise (fun p : Nat × Box ℝ => ymin (c m p.1)) (fun p : Nat × Box ℝ => ymax (c m p.1)) _ ?_)
+  · unfold ymin ymax coord
+    constructor <;> intro h p hp <;> have := h p hp <;> simp only at this ⊢ <;> linarith
+  · intro x hx
+    rw [mem_sortBy] at hx
+    have := (hpos x.1 (sided_range b x.1 s x.2 (mem_side b s x.1 x.2 hx)).2.1).2
+    show ymin (c m x.1) ≤ ymax (c m x.1)
+    unfold ymin ymax; linarith
+
+/-- "original order" is the stable sort by the original coordinate: a permutation, in non-decreasing order. -/
+theorem order_is_sort (b : ModIn ℝ) (s : Loc) (key : Box ℝ → ℝ) :
+    (sortBy (fun p => key p.2) (b.side s)).Perm (b.side s) ∧
+    (sortBy (fun p => key p.2) (b.side s)).Pairwise (fun p q => key p.2 ≤ key q.2) :=
+  ⟨sortBy_perm _ _, sortBy_sorted _ _⟩
+
+/-- the Area equation: the rectangles of the module add up to at least the required area. -/
+theorem area_iff (c : Cfg) (m n : Nat) (a : ℝ) (nm : String) :
+    Holds c ⟨"Area", nm, areaExpr m n, .ge, .cst a, false⟩ ↔ a ≤ areaSum c m n := areaEq_iff c m n a nm
+
+theorem interRaw_sound (tau : ℝ) (ht : 0 ≤ tau) (p q : Box ℝ) (h : InterRaw tau p q) : ovArea p q ≤ tau := by
+  unfold ovArea
+  by_cases hx : min (xmax p) (xmax q) - max (xmin p) (xmin q) ≤ 0
+  · rw [max_eq_left hx, zero_mul]; exact ht
+  by_cases hy : min (ymax p) (ymax q) - max (ymin p) (ymin q) ≤ 0
+  · rw [max_eq_left hy, mul_zero]; exact ht
+  push Not at hx hy
+  rw [max_eq_right hx.le, max_eq_right hy.le]
+  set ox := min (xmax p) (xmax q) - max (xmin p) (xmin q) with hox
+  set oy := min (ymax p) (ymax q) - max (ymin p) (ymin q) with hoy
+  have x1 : ox ≤ xmax p - xmin q := by have := min_le_left (xmax p) (xmax q); have := le_max_right (xmin p) (xmin q); linarith
+  have x2 : ox ≤ xmax q - xmin p := by have := min_le_right (xmax p) (xmax q); have := le_max_left (xmin p) (xmin q); linarith
+  have y1 : oy ≤ ymax p - ymin q := by have := min_le_left (ymax p) (ymax q); have := le_max_right (ymin p) (ymin q); linarith
+  have y2 : oy ≤ ymax q - ymin p := by have := min_le_right (ymax p) (ymax q); have := le_max_left (ymin p) (ymin q); linarith
+  have tx : ox ^ 2 ≤ -tX p q := by
+    have e : -tX p q = (xmax p - xmin q) * (xmax q - xmin p) := by unfold tX xmax xmin; ring
+    rw [e]; nlinarith
+  have ty : oy ^ 2 ≤ -tY p q := by
+    have e : -tY p q = (ymax p - ymin q) * (ymax q - ymin p) := by unfold tY ymax ymin; ring
+    rw [e]; nlinarith
+  have hox2 : 0 < ox ^ 2 := by positivity
+  have hoy2 : 0 < oy ^ 2 := by positivity
+  have hprod : (ox * oy) ^ 2 ≤ tau ^ 2 := by
+    rcases h with h | h
+    · nlinarith
+    · have : ox ^ 2 * oy ^ 2 ≤ (-tX p q) * (-tY p q) := mul_le_mul tx ty hoy2.le (by linarith)
+      nlinarith
+  exact (pow_le_pow_iff_left₀ (by positivity) ht (by norm_num)).mp hprod
+
+theorem interRaw_complete (tau : ℝ) (p q : Box ℝ) (hpw : 0 < p.w) (hph : 0 < p.h) (hqw : 0 < q.w) (hqh : 0 < q.h)
+    (h : ovArea p q ≤ 0) : InterRaw tau p q := by
+  unfold ovArea at h
+  have key : min (xmax p) (xmax q) - max (xmin p) (xmin q) ≤ 0 ∨ min (ymax p) (ymax q) - max (ymin p) (ymin q) ≤ 0 := by
+    by_contra hc
+    push Not at hc
+    rw [max_eq_right hc.1.le, max_eq_right hc.2.le] at h
+    nlinarith [mul_pos hc.1 hc.2]
+  have sepx : min (xmax p) (xmax q) - max (xmin p) (xmin q) ≤ 0 → 0 ≤ tX p q := by
+    intro hx
+    have e : tX p q = -((xmax p - xmin q) * (xmax q - xmin p)) := by unfold tX xmax xmin; ring
+    have hsum : 0 < (xmax p - xmin q) + (xmax q - xmin p) := by unfold xmax xmin; linarith
+    have : xmax p - xmin q ≤ 0 ∨ xmax q - xmin p ≤ 0 := by
+      rcases min_cases (xmax p) (xmax q) with ⟨h1, _⟩ | ⟨h1, _⟩ <;>
+        rcases max_cases (xmin p) (xmin q) with ⟨h2, _⟩ | ⟨h2, _⟩ <;> rw [h1, h2] at hx
+      · exfalso; unfold xmax xmin at hx; linarith
+      · left; linarith
+      · right; linarith
+      · exfalso; unfold xmax xmin at hx; linarith
+    rw [e]
+    rcases this with h1 | h1
+    · nlinarith
+    · nlinarith
+  have sepy : min (ymax p) (ymax q) - max (ymin p) (ymin q) ≤ 0 → 0 ≤ tY p q := by
+    intro hy
+    have e : tY p q = -((ymax p - ymin q) * (ymax q - ymin p)) := by unfold tY ymax ymin; ring
+    have hsum : 0 < (ymax p - ymin q) + (ymax q - ymin p) := by unfold ymax ymin; linarith
+    have : ymax p - ymin q ≤ 0 ∨ ymax q - ymin p ≤ 0 := by
+      rcases min_cases (ymax p) (ymax q) with ⟨h1, _⟩ | ⟨h1, _⟩ <;>
+        rcases max_cases (ymin p) (ymin q) with ⟨h2, _⟩ | ⟨h2, _⟩ <;> rw [h1, h2] at hy
+      · exfalso; unfold ymax ymin at hy; linarith
+      · left; linarith
+      · right; linarith
+      · exfalso; unfold ymax ymin at hy; linarith
+    rw [e]
+    rcases this with h1 | h1
+    · nlinarith
+    · nlinarith
+  unfold InterRaw
+  rcases key with hx | hy
+  · have h1 := sepx hx
+    by_cases h2 : 0 ≤ tY p q
+    · left; linarith
+    · right; nlinarith [sq_nonneg tau]
+  · have h1 := sepy hy
+    by_cases h2 : 0 ≤ tX p q
+    · left; linarith
+    · right; nlinarith [sq_nonneg tau]
+
+/-- the pairwise no-overlap equation is sound up to the smoothing tolerance: if it holds, the two
+    rectangles overlap in an area of at most `τ`. -/
+theorem inter_sound (c : Cfg) (tau : ℝ) (ht : 0 ≤ tau) (m i n j : Nat) (h : Holds c (interEq tau m i n j)) :
+    ovArea (c m i) (c n j) ≤ tau :=
+  interRaw_sound tau ht _ _ ((interEq_iff c tau m i n j).mp h)
+
+/-- … and complete: it holds for rectangles that do not overlap. -/
+theorem inter_complete (c : Cfg) (tau : ℝ) (m i n j : Nat)
+    (hp : 0 < (c m i).w ∧ 0 < (c m i).h) (hq : 0 < (c n j).w ∧ 0 < (c n j).h)
+    (h : ovArea (c m i) (c n j) ≤ 0) : Holds c (interEq tau m i n j) :=
+  (interEq_iff c tau m i n j).mpr (interRaw_complete tau _ _ hp.1 hp.2 hq.1 hq.2 h)
+
+theorem fixRaw_iff (c : Cfg) (m : Nat) (M : InModule ℝ) (hfh : M.fixed = true → M.hard = true) :
+    FixRaw c m M ↔ (M.hard = true → Rigid c m (split M.rects)) ∧ (M.fixed = true → AtPlace c m (split M.rects)) := by
+  unfold FixRaw Rigid AtPlace
+  constructor
+  · intro h
+    refine ⟨fun hh => ?_, fun hf => ((h (hfh hf)).1.1 hf)⟩
+    obtain ⟨⟨_, hw, hh'⟩, hbr⟩ := h hh
+    refine ⟨⟨hw, hh'⟩, fun i q hi hq => ?_⟩
+    obtain ⟨a, b, c', d⟩ := hbr i q hi hq
+    exact ⟨c', d, by linarith, by linarith⟩
+  · rintro ⟨h1, h2⟩ hh
+    obtain ⟨⟨hw, hh'⟩, hbr⟩ := h1 hh
+    refine ⟨⟨h2, hw, hh'⟩, fun i q hi hq => ?_⟩
+    obtain ⟨a, b, c', d⟩ := hbr i q hi hq
+    exact ⟨by linarith, by linarith, a, b⟩
+
+
+/-- the Fix equations of a module (`Model.fix` on the tables of `netlist_to_utils`): a hard module is a
+    translate of its original shape, a fixed one stays where it was. -/
+theorem fix_iff (c : Cfg) (m : Nat) (M : InModule ℝ) (hfh : M.fixed = true → M.hard = true) :
+    (∀ i < (split M.rects).c, ∀ e ∈ fixRect m i
+        (if M.hard then some (xDict (split M.rects) M.fixed) else none)
+        (if M.hard then some (yDict (split M.rects) M.fixed) else none)
+        (if M.hard then some (wDict (split M.rects) M.fixed) else none)
+        (if M.hard then some (hDict (split M.rects) M.fixed) else none), Holds c e) ↔
+      (M.hard = true → Rigid c m (split M.rects)) ∧ (M.fixed = true → AtPlace c m (split M.rects)) := by
+  rw [fixModule_iff, fixRaw_iff c m M hfh]
+
+/-! ### the assembled system -/
+
+theorem rectRaw_iff (P : Params ℝ) (q : Box ℝ) (hw : 0 < q.w) (hh : 0 < q.h) :
+    RectRaw P q ↔ InDie P q ∧ AspectOK P.r q := by
+  unfold RectRaw InDie AspectOK xmin xmax ymin ymax
+  rw [max_le_iff, div_le_iff₀ hh, div_le_iff₀ hw]
+  constructor
+  · rintro ⟨⟨a, b, c', d⟩, e⟩; exact ⟨⟨by linarith, by linarith, by linarith, by linarith⟩, e⟩
+  · rintro ⟨⟨a, b, c', d⟩, e⟩; exact ⟨⟨by linarith, by linarith, by linarith, by linarith⟩, e⟩
+
+theorem intraRaw_iff (c : Cfg) (m : Nat) (b : ModIn ℝ) (hpos : ∀ i < b.c, 0 < (c m i).w ∧ 0 < (c m i).h) :
+    IntraRaw c m b ↔ SidesOrdered c m b := by
+  unfold IntraRaw SidesOrdered
+  rw [← intra_iff_x c m b .north "north" hpos, ← intra_iff_x c m b .south "south" hpos,
+    ← intra_iff_y c m b .east "east" hpos, ← intra_iff_y c m b .west "west" hpos]
+  simp only [intraSide_iff]; rfl
+
+/-- the per-module part of the raw system is the per-module legality. -/
+theorem rawModule_iff (P : Params ℝ) (c : Cfg) (m : Nat) (M : InModule ℝ)
+    (hpos : ∀ i < (split M.rects).c, 0 < (c m i).w ∧ 0 < (c m i).h) :
+    (((∀ i < (split M.rects).c, RectRaw P (c m i)) ∧
+        (∀ i s q, (i, s, q) ∈ (split M.rects).sided → AttachRaw s (c m 0) (c m i)) ∧
+        IntraRaw c m (split M.rects)) ∧ M.area ≤ areaSum c m (split M.rects).c) ↔ LegalModule P c m M := by
+  constructor
+  · rintro ⟨⟨h1, h2, h3⟩, h4⟩
+    exact {
+      inDie := fun i hi => ((rectRaw_iff P _ (hpos i hi).1 (hpos i hi).2).mp (h1 i hi)).1
+      aspect := fun i hi => ((rectRaw_iff P _ (hpos i hi).1 (hpos i hi).2).mp (h1 i hi)).2
+      area := h4
+      attached := fun i s q hs => (attachRaw_iff s _ _).mp (h2 i s q hs)
+      ordered := (intraRaw_iff c m _ hpos).mp h3 }
+  · intro h
+    exact ⟨⟨fun i hi => (rectRaw_iff P _ (hpos i hi).1 (hpos i hi).2).mpr ⟨h.inDie i hi, h.aspect i hi⟩,
+      fun i s q hs => (attachRaw_iff s _ _).mpr (h.attached i s q hs),
+      (intraRaw_iff c m _ hpos).mpr h.ordered⟩, h.area⟩
+
+theorem tau_nonneg (P : Params ℝ) (n : Nat) (hdw : 0 ≤ P.dw) (hdh : 0 ≤ P.dh) : 0 ≤ tauV P n := by
+  unfold tauV
+  have : (0:ℝ) ≤ pyMin P.dw P.dh := by unfold pyMin; split <;> assumption
+  have : (0:ℝ) ≤ (n : ℝ) := Nat.cast_nonneg n
+  simp only [hundredth_eq]
+  positivity
+
+/-- **Soundness.**  A configuration (positive sizes) that satisfies every generated equation is a legal
+    floorplan, different modules overlapping in an area of at most the smoothing constant
+    `τ = 0.01 · min(dw, dh) / #modules`. -/
+theorem system_sound (P : Params ℝ) (mods : List (InModule ℝ)) (c : Cfg)
+    (hr : 1 ≤ P.r) (hdw : 0 ≤ P.dw) (hdh : 0 ≤ P.dh) (hpos : Pos mods c)
+    (h : AllEquationsHold P mods c) : Legal (tauV P mods.length) P mods c := by
+  obtain ⟨U, es, hU, hg, hall⟩ := h
+  have hraw := (gen_iff P mods U es c hU hg hr hpos).mp hall
+  have hfh := utils_ok_fixed_hard mods U hU
+  exact {
+    modules := fun m M hM =>
+      (rawModule_iff P c m M (hpos m M hM)).mp ⟨(hraw.1 m M hM).1, (hraw.1 m M hM).2.1⟩
+    hard := fun m M hM hh => ((fixRaw_iff c m M (hfh m M hM)).mp (hraw.1 m M hM).2.2).1 hh
+    fixed := fun m M hM hf => ((fixRaw_iff c m M (hfh m M hM)).mp (hraw.1 m M hM).2.2).2 hf
+    noOverlap := fun m n Mm Mn hmn hMm hMn i hi j hj =>
+      interRaw_sound _ (tau_nonneg P _ hdw hdh) _ _ (hraw.2 m n Mm Mn hmn hMm hMn i hi j hj) }
+
+/-- **Completeness.**  Every legal floorplan (no overlap between different modules) satisfies every
+    generated equation — provided `netlist_to_utils` accepts the netlist (at least one module, fixed
+    modules are hard), in which case the equations exist. -/
+theorem system_complete (P : Params ℝ) (mods : List (InModule ℝ)) (c : Cfg)
+    (hr : 1 ≤ P.r) (hpos : Pos mods c) (hne : mods ≠ [])
+    (hfh : ∀ M ∈ mods, M.fixed = true → M.hard = true)
+    (h : Legal 0 P mods c) : AllEquationsHold P mods c := by
+  obtain ⟨U, es, hU, hg⟩ := gen_ok P mods hne hfh
+  refine ⟨U, es, hU, hg, (gen_iff P mods U es c hU hg hr hpos).mpr ⟨fun m M hM => ?_, ?_⟩⟩
+  · have hm := (rawModule_iff P c m M (hpos m M hM)).mpr (h.modules m M hM)
+    exact ⟨hm.1, hm.2, (fixRaw_iff c m M (hfh M (List.mem_of_getElem? hM))).mpr ⟨h.hard m M hM, h.fixed m M hM⟩⟩
+  · intro m n Mm Mn hmn hMm hMn i hi j hj
+    exact interRaw_complete _ _ _ (hpos m Mm hMm i hi).1 (hpos m Mm hMm i hi).2 (hpos n Mn hMn j hj).1
+      (hpos n Mn hMn j hj).2 (h.noOverlap m n Mm Mn hmn hMm hMn i hi j hj)
+
+/-- the input configuration: rectangle `i` of module `m` where the netlist puts it. -/
+noncomputable def inputCfg (mods : List (InModule ℝ)) : Cfg := fun m i =>
+  match mods[m]? with
+  | some M => (((split M.rects).trunk :: (split M.rects).branches)[i]?).getD ⟨0, 0, 0, 0⟩
+  | none => ⟨0, 0, 0, 0⟩
+
+/-- a legal floorplan as far as geometry goes (the hard / fixed clauses are about the *original* shape
+    and place, which the input configuration has by definition). -/
+structure LegalInput (P : Params ℝ) (mods : List (InModule ℝ)) : Prop where
+  modules : ∀ m M, mods[m]? = some M → LegalModule P (inputCfg mods) m M
+  noOverlap : ∀ m n Mm Mn, m < n → mods[m]? = some Mm → mods[n]? = some Mn →
+    ∀ i < (split Mm.rects).c, ∀ j < (split Mn.rects).c, ovArea (inputCfg mods m i) (inputCfg mods n j) ≤ 0
+
+/-- **In particular** the input configuration of an already legal floorplan satisfies the system. -/
+theorem input_satisfies (P : Params ℝ) (mods : List (InModule ℝ))
+    (hr : 1 ≤ P.r) (hpos : Pos mods (inputCfg mods)) (hne : mods ≠ [])
+    (hfh : ∀ M ∈ mods, M.fixed = true → M.hard = true)
+    (h : LegalInput P mods) : AllEquationsHold P mods (inputCfg mods) := by
+  refine system_complete P mods _ hr hpos hne hfh
+    { modules := h.modules, noOverlap := h.noOverlap, hard := ?_, fixed := ?_ }
+  · intro m M hM _
+    unfold Rigid inputCfg
+    simp only [hM, List.getElem?_cons_zero, Option.getD_some, true_and, and_self]
+    intro i q hi hq
+    have : ((split M.rects).trunk :: (split M.rects).branches)[i]? = some q := by
+      obtain ⟨k, rfl⟩ : ∃ k, i = k + 1 := ⟨i - 1, by omega⟩
+      simpa using hq
+    simp [this]
+  · intro m M hM _
+    unfold AtPlace inputCfg
+    simp [hM]
+
+/-- for a hard module whose required area is the area of its rectangles, the Area clause follows from
+    rigidity (so the Area equation of a hard module never excludes a translate of it). -/
+theorem hard_area_of_rigid (c : Cfg) (m : Nat) (b : ModIn ℝ) (h : Rigid c m b) :
+    areaSum c m b.c = areaSum (fun _ i => ((b.trunk :: b.branches)[i]?).getD ⟨0, 0, 0, 0⟩) m b.c := by
+  have key : ∀ n, n ≤ b.c → areaSum c m n = areaSum (fun _ i => ((b.trunk :: b.branches)[i]?).getD ⟨0, 0, 0, 0⟩) m n := by
+    intro n
+    induction n with
+    | zero => intro _; rfl
+    | succ n ih =>
+      intro hn
+      unfold areaSum
+      rw [ih (by omega)]
+      congr 1
+      cases n with
+      | zero => simp [h.1.1, h.1.2]
+      | succ k =>
+        have hk : k < b.branches.length := by unfold ModIn.c at hn; omega
+        have hq := List.getElem?_eq_getElem hk
+        obtain ⟨hw, hh, _, _⟩ := h.2 (k + 1) (b.branches[k]) (by omega) (by simp [hq])
+        simp [hw, hh, hq]
+  exact key _ (le_refl _)
+
+/-! ### non-vacuity: a two-module floorplan (a fixed 4×2 trunk with a 2×2 north branch, and a soft 2×2) in a 10×10 die -/
+
+example : thinV (2:ℝ) 1 * 10 ≤ thinV 4 2 * 10 := (ratio_iff 4 2 2 (by norm_num) (by norm_num) (by norm_num)).mpr (by norm_num)
+example : (0:ℝ) ≤ 1 / 2 * (1 + -1 + √((1 - -1) ^ 2 + 4 * 0 * 0)) := (smax_nonneg_iff 1 (-1) 0).mpr (Or.inl (by norm_num))
+example : ovArea ⟨2, 1, 4, 2⟩ ⟨7, 1, 2, 2⟩ ≤ 0 := by
+  unfold ovArea xmin xmax ymin ymax; norm_num
+example : Attached .north ⟨2, 1, 4, 2⟩ ⟨2, 3, 2, 2⟩ := by
+  unfold Attached xmin xmax ymin ymax; norm_num
+
 end FV.C09
